@@ -95,8 +95,26 @@ def _summ(results, idx, seed):
     return out
 
 
+def _fresh_library():
+    """Every batch starts from freshly imported library modules: whatever a tree under test keeps at module or class
+    level (caches, shared mutable defaults, growing lists) cannot leak from one batch into the next, and memory cannot
+    grow without bound over a long sweep.  The property's setup() runs again so that seams and fixtures are re-installed
+    on the new module objects."""
+    from sim import core
+    for m in [m for m in sys.modules if m == "baize" or m.startswith("baize.")]:
+        del sys.modules[m]
+    core._CACHES["mods"] = None
+    import baize  # noqa
+    _W["prop"].setup(_W["wd"])
+    _W["batches"] = _W.get("batches", 0) + 1
+
+
 def _run_batch(base_seed, pid_, start, count, det_every, want_samples):
     import gc
+    if _W.get("batches") is not None:
+        _fresh_library()
+    else:
+        _W["batches"] = 0
     prop = _W["prop"]
     agg = {"evals": 0, "seeds": 0, "faults": Counter(), "probes": Counter(), "sim_time": 0.0,
            "inter": set(), "viol": [], "det": {}, "samples": [], "trips": 0, "harness": None, "t0": time.time()}
@@ -142,6 +160,10 @@ def _run_batch(base_seed, pid_, start, count, det_every, want_samples):
 
 
 def _det_batch(base_seed, pid_, idxs):
+    if _W.get("batches") is not None:
+        _fresh_library()
+    else:
+        _W["batches"] = 0
     prop = _W["prop"]
     out = {}
     for i in idxs:
